@@ -75,7 +75,7 @@ func isPkgFunc(fn *types.Func, path, name string) bool {
 	if fn.Type().(*types.Signature).Recv() != nil {
 		return false
 	}
-	return fn.Pkg().Path() == path && fn.Name() == name
+	return fn.Pkg().Path() == path && nm(fn) == name
 }
 
 // recvNamed returns the named type (pointer stripped) of fn's receiver, or nil.
@@ -824,7 +824,7 @@ func callFact(fa Fact, name string) (*ssa.Call, bool, bool) {
 		return nil, false, false
 	}
 	fn := calleeFunc(c)
-	if fn == nil || fn.Name() != name {
+	if fn == nil || nm(fn) != name {
 		return nil, false, false
 	}
 	return c, truth, true
